@@ -22,8 +22,24 @@ Proof.
   destruct (regexp_positive_int s) eqn:E; [|reflexivity]. now rewrite (regexp_then_int s E).
 Qed.
 
+Definition station_hits_start (st : station) : bool :=
+  station_eqb st SHandleLookup || station_eqb st SLog || station_eqb st SThreadStart.
+
+Lemma start_transfer_f_spec f fn m o i : m <> Mail ->
+  start_transfer_f f fn m o i =
+  match f with
+  | Some (st, e) => if station_hits_start st then Exc e [] else Ok [AStart fn m o i]
+  | None => Ok [AStart fn m o i]
+  end.
+Proof.
+  intros Hm. unfold start_transfer_f, station_hits_start.
+  destruct f as [[st e]|]; cbn [at_station bind].
+  - destruct st; cbn [station_eqb orb bind]; destruct m; try congruence; rewrite ?ctor_option_ok; reflexivity.
+  - destruct m; try congruence; rewrite !ctor_option_ok; reflexivity.
+Qed.
+
 Lemma start_transfer_ok fn m o i : m <> Mail -> start_transfer fn m o i = Ok [AStart fn m o i].
-Proof. intros Hm. unfold start_transfer. rewrite !ctor_option_ok. destruct m; try reflexivity. congruence. Qed.
+Proof. intros Hm. unfold start_transfer. now rewrite start_transfer_f_spec. Qed.
 
 (* int() is only reached for strings the full-match regular expression accepts: a value that merely
    starts like a number ("1024x") is not converted; with a prefix match it would be and int() raises *)
@@ -40,38 +56,64 @@ Definition deliver (sendable : bool) (acts : list action) : res (list action) :=
 Lemma send_reply_deliver sendable c : send_reply sendable c = deliver sendable [ASendError c].
 Proof. destruct sendable; reflexivity. Qed.
 
-Lemma handler_loop_spec sendable fn m o : m <> Mail -> forall hs i,
-  handler_loop sendable hs i fn m o =
-  deliver sendable (match first_accepting hs i fn with Some j => [AStart fn m o j] | None => [ASendError 1] end).
+(* the result with an injected fault: the exception at the station if control gets there *)
+Definition faulted (f : fault) (hit : station -> bool) (r : res (list action)) : res (list action) :=
+  match f with
+  | Some (st, e) => if hit st then Exc e [] else r
+  | None => r
+  end.
+
+Lemma log_then f r : bind (at_station f SLog) (fun _ => r) = faulted f (fun st => station_eqb st SLog) r.
+Proof. destruct f as [[st e]|]; cbn [at_station bind faulted]; [destruct (station_eqb st SLog)|]; reflexivity. Qed.
+
+Lemma handler_loop_f_spec f sendable fn m o : m <> Mail -> forall hs i,
+  handler_loop_f f sendable hs i fn m o =
+  faulted f (fun st => loop_reaches st hs i fn)
+    (deliver sendable (match first_accepting hs i fn with Some j => [AStart fn m o j] | None => [ASendError 1] end)).
 Proof.
-  intros Hm. induction hs as [|h r IH]; intros i; cbn [handler_loop first_accepting].
-  - apply send_reply_deliver.
-  - destruct (can_handle h fn); [|apply IH]. rewrite start_transfer_ok by exact Hm.
-    unfold deliver. cbn. now rewrite orb_true_r.
+  intros Hm. induction hs as [|h r IH]; intros i; cbn [handler_loop_f first_accepting loop_reaches].
+  - rewrite log_then, send_reply_deliver. reflexivity.
+  - destruct f as [[st e]|]; cbn [at_station bind faulted].
+    + destruct (station_eqb st (SPrepare i)); cbn [orb bind]; [reflexivity|].
+      destruct (station_eqb st (SCanHandle i)); cbn [orb bind]; [reflexivity|].
+      destruct (can_handle h fn).
+      * rewrite start_transfer_f_spec by exact Hm. unfold station_hits_start.
+        destruct (station_eqb st SHandleLookup || station_eqb st SLog || station_eqb st SThreadStart); [reflexivity|].
+        unfold deliver. cbn. now rewrite orb_true_r.
+      * rewrite IH. reflexivity.
+    + destruct (can_handle h fn).
+      * rewrite start_transfer_f_spec by exact Hm. unfold deliver. cbn. now rewrite orb_true_r.
+      * rewrite IH. reflexivity.
 Qed.
 
-(* the code, exception by exception, performs the specified reaction; the only exception that can
-   escape is the OSError of a reply that cannot be sent *)
-Theorem process_request_spec sendable hs d : process_request sendable hs d = deliver sendable (port_spec hs d).
+(* the code, exception by exception and station by station: an injected fault that is reached is
+   the result (nothing has been done before it); otherwise the specified reaction is performed and
+   the only exception that can escape is the OSError of a reply that cannot be sent *)
+Theorem process_request_f_spec f sendable hs d :
+  process_request_f f sendable hs d = faulted f (fun st => reaches st hs d) (deliver sendable (port_spec hs d)).
 Proof.
-  unfold process_request, port_spec.
-  destruct d as [|hi [|lo r]]; try (unfold deliver; cbn; now rewrite orb_true_r).
+  assert (Hnil : deliver sendable [] = Ok []) by (unfold deliver; cbn; now rewrite orb_true_r).
+  unfold process_request_f, port_spec, reaches.
+  destruct d as [|hi [|lo r]]; try (cbn [List.length Nat.ltb Nat.leb]; rewrite log_then, Hnil; reflexivity).
   cbn [List.length Nat.ltb Nat.leb unpack_u16 bind].
   set (op := u16 hi lo). unfold opcode_of.
   destruct (op =? 1) eqn:E1.
-  { unfold process_read_request, decode_read_request.
-    destruct (decode_rrq (hi :: lo :: r)) as [[[fn m] o]|]; [|apply send_reply_deliver].
-    destruct m; try apply send_reply_deliver; apply handler_loop_spec; discriminate. }
-  destruct (op =? 2) eqn:E2; [apply send_reply_deliver|].
+  { unfold process_read_request_f, decode_read_request.
+    destruct (decode_rrq (hi :: lo :: r)) as [[[fn m] o]|]; [|rewrite log_then, send_reply_deliver; reflexivity].
+    destruct m; try (rewrite log_then, send_reply_deliver; reflexivity); apply handler_loop_f_spec; discriminate. }
+  destruct (op =? 2) eqn:E2; [rewrite log_then, send_reply_deliver; reflexivity|].
   apply N.eqb_neq in E1, E2.
-  destruct (op =? 3) eqn:E3; [apply N.eqb_eq in E3; rewrite E3; apply send_reply_deliver|].
-  destruct (op =? 4) eqn:E4; [apply N.eqb_eq in E4; rewrite E4; apply send_reply_deliver|].
-  destruct (op =? 5) eqn:E5; [apply N.eqb_eq in E5; rewrite E5; apply send_reply_deliver|].
-  destruct (op =? 6) eqn:E6; [apply N.eqb_eq in E6; rewrite E6; apply send_reply_deliver|].
+  destruct (op =? 3) eqn:E3; [apply N.eqb_eq in E3; rewrite E3; rewrite log_then, send_reply_deliver; reflexivity|].
+  destruct (op =? 4) eqn:E4; [apply N.eqb_eq in E4; rewrite E4; rewrite log_then, send_reply_deliver; reflexivity|].
+  destruct (op =? 5) eqn:E5; [apply N.eqb_eq in E5; rewrite E5; rewrite log_then, send_reply_deliver; reflexivity|].
+  destruct (op =? 6) eqn:E6; [apply N.eqb_eq in E6; rewrite E6; rewrite log_then, send_reply_deliver; reflexivity|].
   apply N.eqb_neq in E3, E4, E5, E6.
-  destruct ((3 <=? op) && (op <=? 6)) eqn:E; [|unfold deliver; cbn; now rewrite orb_true_r].
+  destruct ((3 <=? op) && (op <=? 6)) eqn:E; [|rewrite log_then, Hnil; reflexivity].
   apply andb_true_iff in E as [A B]. apply N.leb_le in A, B. lia.
 Qed.
+
+Theorem process_request_spec sendable hs d : process_request sendable hs d = deliver sendable (port_spec hs d).
+Proof. unfold process_request. now rewrite process_request_f_spec. Qed.
 
 Inductive reaction_ok (hs : list handler) (d : str) : list action -> Prop :=
 | RNothing : reaction_ok hs d []
@@ -93,7 +135,7 @@ Proof.
 Qed.
 
 Lemma serve_one_sendable hs d : serve_one true hs d = port_spec hs d.
-Proof. unfold serve_one. rewrite process_request_spec. reflexivity. Qed.
+Proof. unfold serve_one, serve_one_f. rewrite process_request_f_spec. cbn [faulted]. reflexivity. Qed.
 
 (* for EVERY datagram from a requester that can be replied to, and every handler list: nothing,
    exactly one ERROR with code 1, 2 or 4, or one transfer start whose arguments are the decoding of
@@ -101,7 +143,7 @@ Proof. unfold serve_one. rewrite process_request_spec. reflexivity. Qed.
 Theorem request_port_total hs d :
   exists acts, process_request true hs d = Ok acts /\ serve_one true hs d = acts /\ reaction_ok hs d acts.
 Proof.
-  exists (port_spec hs d). split; [apply process_request_spec|]. split; [apply serve_one_sendable|apply port_spec_ok].
+  exists (port_spec hs d). split; [apply (process_request_spec true)|]. split; [apply serve_one_sendable|apply port_spec_ok].
 Qed.
 
 Corollary request_port_no_internal_error hs d : ~ In ALogExc (serve_one true hs d).
@@ -117,23 +159,86 @@ Theorem request_port_unsendable hs d :
   serve_one false hs d = port_spec hs d ++ (if existsb is_send (port_spec hs d) then [ALogExc] else []) /\
   reaction_ok hs d (port_spec hs d).
 Proof.
-  split; [|apply port_spec_ok]. unfold serve_one. rewrite process_request_spec. unfold deliver. cbn [orb].
+  split; [|apply port_spec_ok]. unfold serve_one, serve_one_f. rewrite process_request_f_spec. cbn [faulted]. unfold deliver. cbn [orb].
   destruct (existsb is_send (port_spec hs d)); cbn [negb]; [reflexivity|now rewrite List.app_nil_r].
 Qed.
 
-(* the serve loop handles every datagram that arrives, whatever came before it *)
+(* an injected fault - whatever Exception subclass, at whatever station -: if control reaches the
+   station the exception is logged by the catch-all and NOTHING else happens (no reply attempt, no
+   transfer); if not, the reaction is the one without the fault *)
+Theorem request_port_faulted st e sendable hs d :
+  serve_one_f (Some (st, e)) sendable hs d =
+  if reaches st hs d then [ALogExc] else serve_one_f None sendable hs d.
+Proof.
+  unfold serve_one_f. rewrite !process_request_f_spec. cbn [faulted].
+  destruct (reaches st hs d); reflexivity.
+Qed.
+
+(* closed forms of [reaches] *)
+Lemma reaches_log hs d : reaches SLog hs d = true.
+Proof.
+  unfold reaches. destruct d as [|hi [|lo r]]; try reflexivity.
+  destruct (u16 hi lo =? 1); [|reflexivity].
+  destruct (decode_rrq (hi :: lo :: r)) as [[[fn m] o]|]; [|reflexivity].
+  assert (H : forall hs i, loop_reaches SLog hs i fn = true).
+  { induction hs0 as [|h r0 IH]; intros i; cbn [loop_reaches station_eqb orb]; [reflexivity|].
+    destruct (can_handle h fn); [reflexivity|apply IH]. }
+  destruct m; try reflexivity; apply H.
+Qed.
+
+Lemma loop_reaches_start fn : forall hs i,
+  loop_reaches SThreadStart hs i fn = match first_accepting hs i fn with Some _ => true | None => false end /\
+  loop_reaches SHandleLookup hs i fn = match first_accepting hs i fn with Some _ => true | None => false end.
+Proof.
+  induction hs as [|h r IH]; intros i; cbn [loop_reaches first_accepting station_eqb orb]; [split; reflexivity|].
+  destruct (can_handle h fn); [split; reflexivity|apply IH].
+Qed.
+
+(* the thread-start fault and the handle-lookup fault are reached exactly when a transfer would start *)
+Theorem reaches_start_iff st hs d : st = SThreadStart \/ st = SHandleLookup ->
+  reaches st hs d = existsb (fun a => match a with AStart _ _ _ _ => true | _ => false end) (port_spec hs d).
+Proof.
+  intros Hst. unfold reaches, port_spec. destruct d as [|hi [|lo r]]; try (destruct Hst as [-> | ->]; reflexivity).
+  destruct (u16 hi lo =? 1).
+  - destruct (decode_rrq (hi :: lo :: r)) as [[[fn m] o]|]; [|destruct Hst as [-> | ->]; reflexivity].
+    destruct (loop_reaches_start fn hs O) as [A B].
+    destruct m; try (destruct Hst as [-> | ->]; reflexivity);
+      (destruct Hst as [-> | ->]; [rewrite A|rewrite B]); destruct (first_accepting hs 0 fn); reflexivity.
+  - destruct (u16 hi lo =? 2); [destruct Hst as [-> | ->]; reflexivity|].
+    destruct ((3 <=? u16 hi lo) && (u16 hi lo <=? 6)); destruct Hst as [-> | ->]; reflexivity.
+Qed.
+
+(* the serve loop handles every datagram that arrives, whatever came before it, whichever faults
+   were injected and whether or not earlier replies could be sent *)
+Theorem run_loop_f_total hs reqs :
+  run_loop_f catch_all hs reqs =
+  map (fun r => serve_one_f (fst (fst r)) (snd (fst r)) hs (firstn MAX_REQUEST_PACKET_SIZE (snd r))) reqs.
+Proof.
+  induction reqs as [|[[f s] d] r IH]; [reflexivity|]. cbn [run_loop_f map fst snd]. unfold serve_one_f.
+  destruct (process_request_f f s hs (firstn MAX_REQUEST_PACKET_SIZE d)) as [a|e done]; now rewrite IH.
+Qed.
+
 Theorem run_loop_total hs reqs :
   run_loop false hs reqs = map (fun r => serve_one (fst r) hs (firstn MAX_REQUEST_PACKET_SIZE (snd r))) reqs.
-Proof.
-  induction reqs as [|[s d] r IH]; [reflexivity|]. cbn [run_loop map fst snd]. unfold serve_one.
-  destruct (process_request s hs (firstn MAX_REQUEST_PACKET_SIZE d)) as [a|e done]; [now rewrite IH|].
-  destruct e; now rewrite IH.
-Qed.
+Proof. unfold run_loop. rewrite run_loop_f_total, map_map. reflexivity. Qed.
 
 (* a loop that leaves on an OSError stops serving after one reply that cannot be sent *)
 Theorem run_loop_break_refuted :
   exists hs reqs, (length (run_loop true hs reqs) < length reqs)%nat /\ length (run_loop false hs reqs) = length reqs.
 Proof. exists [HConst true], [(false, [0; 2]); (true, [0; 2])]. split; cbn; lia. Qed.
+
+(* a loop that catches only OSError and ValueError is left by the RuntimeError of a thread that
+   cannot be started: the read request that follows is never served *)
+Theorem run_loop_narrow_catch_refuted :
+  exists hs reqs,
+    (length (run_loop_f only_oserror_valueerror hs reqs) < length reqs)%nat /\
+    length (run_loop_f catch_all hs reqs) = length reqs.
+Proof.
+  exists [HConst true],
+    [(Some (SThreadStart, Injected 0), true, encode_rrq (lit "f") (lit "octet") []);
+     (None, true, encode_rrq (lit "f") (lit "octet") [])].
+  split; vm_compute; lia.
+Qed.
 
 (* which code answers what *)
 Theorem request_port_codes hs d :
@@ -171,7 +276,7 @@ Theorem request_decoding_is_rfc sendable hs fn md m opts i :
   first_accepting hs O fn = Some i ->
   serve_one sendable hs (encode_rrq fn md opts) = [AStart fn m (dict_of opts) i].
 Proof.
-  intros Hfn Hmd Hm Hmail Ho Hi. unfold serve_one. rewrite process_request_spec.
+  intros Hfn Hmd Hm Hmail Ho Hi. unfold serve_one, serve_one_f. rewrite process_request_f_spec. cbn [faulted].
   pose proof (rrq_roundtrip fn md m opts Hfn Hmd Hm Ho) as Hd.
   unfold port_spec. unfold encode_rrq in *. change (u16 0 1 =? 1) with true. cbv iota.
   rewrite Hd, Hi. unfold deliver. destruct m; try congruence; cbn; now rewrite orb_true_r.
@@ -226,4 +331,13 @@ Proof.
   inversion H as [E|c Hc E|fn m o i Hd Hm Hi E];
     cbn [existsb is_log is_send is_dead orb filter negb andb app List.length Nat.leb];
     rewrite ?actions_eqb_refl; cbn [andb app]; rewrite ?actions_eqb_refl; reflexivity.
+Qed.
+
+(* with an injected fault the checker accepts the model when the fault is reached, and judges as
+   without the fault when it is not *)
+Theorem port_holds_f_model st e sendable hs d :
+  port_holds_f (Some (st, e)) sendable hs d (serve_one_f (Some (st, e)) sendable hs d) =
+  if reaches st hs d then [] else port_holds sendable hs d (serve_one sendable hs d).
+Proof.
+  unfold port_holds_f. rewrite request_port_faulted. destruct (reaches st hs d); reflexivity.
 Qed.
